@@ -319,4 +319,59 @@ Section Inv.
     unfold step at 1. sred. rewrite !cupd_same.
     eexists. split; [reflexivity|]. sred. rewrite !cupd_same. rewrite Hl0. auto.
   Qed.
+  (** ---- 5. consequences used by the property file ---- *)
+
+  (** if the server only ever answers query id [ids j] with [payload j] and ids are
+      pairwise distinct, a call never returns another call's payload *)
+  Theorem no_foreign_answer (payload : nat -> N) s i d :
+    reachable init_state s ->
+    (forall a b, ids a = ids b -> a = b) ->
+    (forall id d', In (id, d') (emitted s) -> exists j, id = ids j /\ d' = payload j) ->
+    (pc s i = CLeaving (ROk d) \/ pc s i = CReturned (ROk d)) ->
+    d = payload i.
+  Proof.
+    intros Hr Hinj Hsrv Hpc. destruct (own_answer s i d Hr Hpc) as (Hem & _ & _).
+    destruct (Hsrv _ _ Hem) as (j & Hid & ->). rewrite (Hinj _ _ Hid). reflexivity.
+  Qed.
+
+  (** Send writes only on a connection whose status is Connected *)
+  Theorem send_only_connected s i s' :
+    step s (LSendOk i) = Some s' -> exists k, pc s i = CPicked k /\ status s k = true.
+  Proof.
+    unfold step. destruct (pc s i) as [| |k| |r|r] eqn:Hpc; try discriminate.
+    destruct (status s k) eqn:Hst; [|discriminate]. intros _. exists k. auto.
+  Qed.
+
+  (** the reconnect loop of a Connecting connection can always finish *)
+  Theorem reconnect_can_finish s k :
+    reachable init_state s -> status s k = false -> step s (LReconnectDone k) <> None.
+  Proof.
+    intros Hr Hst. destruct (single_reconnect s k Hr) as [_ [_ Hl]]. specialize (Hl Hst).
+    unfold step. rewrite Hl. discriminate.
+  Qed.
+
+  (** a new call over an established connection completes with its answer: the
+      round-robin choice [next s] is Connected, the server receives the query and
+      answers on any healthy connection [kr] whose reader is idle *)
+  Theorem call_completes s i kr d :
+    reachable init_state s ->
+    pc s i = CInit -> status s (next s) = true ->
+    status s kr = true -> broken s kr = false -> wire s kr = [] ->
+    exists s', exec nconn ids s [LRegister i; LPick i; LSendOk i; LEmit kr (PAnswer (ids i) d);
+                                 LDeliver kr; LRecv i; LUnregister i] = Some s' /\
+               pc s' i = CReturned (ROk d) /\ ~ In (ids i) (map fst (reg s')).
+  Proof.
+    intros Hr Hpc Hst Hkr Hbr Hw. destruct (reg_inv_reachable _ Hr) as (_ & Hinit & _).
+    pose proof (Hinit _ Hpc) as Hch.
+    cbn [exec].
+    unfold step at 1. rewrite Hpc.
+    unfold step at 1. sred. rewrite cupd_same.
+    unfold step at 1. sred. rewrite cupd_same, Hst.
+    unfold step at 1. sred. rewrite Hkr, Hbr. cbn [andb negb].
+    unfold step at 1. sred. rewrite cupd_same, Hw. cbn [app lookup]. rewrite N.eqb_refl, Hch.
+    unfold step at 1. sred. rewrite !cupd_same.
+    unfold step at 1. sred. rewrite !cupd_same.
+    eexists. split; [reflexivity|]. sred. rewrite cupd_same. split; [reflexivity|].
+    apply remove_id_keys.
+  Qed.
 End Inv.
